@@ -4,7 +4,7 @@
     them breaks this file before it reaches the correspondence runs. *)
 From Coq Require Import List NArith ZArith Bool Lia.
 From Coq.Strings Require Import Byte String Ascii.
-From RDPGW Require Import Lib.Bytes Gen.Consts Model.Policy Model.Config Model.Token Proofs.TokenFacts.
+From RDPGW Require Import Lib.Bytes Gen.Consts Gen.Facts Model.Policy Model.Config Model.Token Proofs.TokenFacts.
 Import ListNotations.
 Open Scope N_scope.
 
@@ -105,6 +105,33 @@ Proof.
 Qed.
 Print Assumptions C18_tokens_not_portable.
 
+(** What a started instance serves is safe: OpenID routes and the endpoint that is open at the HTTP
+    level only together with cookie authentication inside the tunnel; the Basic challenge only over
+    TLS; NTLM never next to Kerberos; and an instance that serves nothing of the kind was configured
+    with no mechanism. *)
+Theorem C18_served_is_safe : forall r e k, start r e = Started k ->
+  (sv_openid_routes (serves r) = true -> r_tokenauth r = true) /\
+  (sv_open_endpoint (serves r) = true -> r_tokenauth r = true) /\
+  (sv_basic (serves r) = true -> r_tls_disable r = false) /\
+  (sv_ntlm (serves r) = true -> r_kerberos r = false) /\
+  (sv_negotiate (serves r) = true -> r_ntlm r = true \/ (r_kerberos r = true /\ r_keytab_set r = true)) /\
+  (r_openid r = false -> sv_openid_routes (serves r) = false /\ sv_open_endpoint (serves r) = false).
+Proof.
+  intros r e k S. destruct (C18_refusals r e) as [NU _]. specialize (NU k S).
+  unfold unsafe in NU. unfold serves; cbn [sv_openid_routes sv_open_endpoint sv_basic sv_ntlm sv_negotiate].
+  repeat split.
+  - intro O. destruct (r_tokenauth r) eqn:T; [reflexivity|]. exfalso. apply NU. left. auto.
+  - intro O. destruct (r_openid r) eqn:Oi; [|discriminate].
+    destruct (r_tokenauth r) eqn:T; [reflexivity|]. exfalso. apply NU. left. auto.
+  - intro B. destruct (r_tls_disable r) eqn:T; [|reflexivity]. exfalso. apply NU. right; left. auto.
+  - intro N. destruct (r_kerberos r) eqn:K; [|reflexivity]. exfalso. apply NU. right; right; left. auto.
+  - intro G. destruct (r_ntlm r) eqn:N; [left; reflexivity|]. right. cbn [orb] in G. split; [exact G|].
+    destruct (r_keytab_set r) eqn:T; [reflexivity|]. exfalso. apply NU. right; right; right; left. auto.
+  - exact H.
+  - rewrite H. reflexivity.
+Qed.
+Print Assumptions C18_served_is_safe.
+
 (** The source text these definitions transcribe (regenerated on every run). *)
 Definition b (s : string) : bytes := list_byte_of_string s.
 Theorem C18_source_pinned :
@@ -136,3 +163,52 @@ Example C18_example :
   Started {| k_paa_enc := Fresh; k_paa_sign := Fresh; k_user_enc := Configured; k_session := Configured;
              k_session_enc := Fresh |}.
 Proof. reflexivity. Qed.
+
+(** The decisions of the transcribed functions, as the source has them now (regenerated by the
+    translator: conditions, case labels, returns, branches, go and defer statements in source order).
+    The model is a transcription of exactly this text. *)
+Theorem C18_decisions_as_transcribed :
+  DECISIONS_main =
+    [[x69; x66; x20; x65; x72; x72; x21; x3d; x6e; x69; x6c] (* if err!=nil *);
+     [x69; x66; x20; x65; x72; x72; x21; x3d; x6e; x69; x6c] (* if err!=nil *);
+     [x69; x66; x20; x75; x72; x6c; x2e; x53; x63; x68; x65; x6d; x65; x3d; x3d; x22; x22] (* if url.Scheme=="" *);
+     [x69; x66; x20; x63; x6f; x6e; x66; x2e; x43; x61; x70; x73; x2e; x54; x6f; x6b; x65; x6e; x41; x75; x74; x68] (* if conf.Caps.TokenAuth *);
+     [x69; x66; x20; x63; x6f; x6e; x66; x2e; x53; x65; x63; x75; x72; x69; x74; x79; x2e; x45; x6e; x61; x62; x6c; x65; x55; x73; x65; x72; x54; x6f; x6b; x65; x6e] (* if conf.Security.EnableUserToken *);
+     [x69; x66; x20; x63; x6f; x6e; x66; x2e; x53; x65; x72; x76; x65; x72; x2e; x54; x6c; x73; x3d; x3d; x63; x6f; x6e; x66; x69; x67; x2e; x54; x6c; x73; x44; x69; x73; x61; x62; x6c; x65] (* if conf.Server.Tls==config.TlsDisable *);
+     [x69; x66; x20; x74; x6c; x73; x44; x65; x62; x75; x67; x21; x3d; x22; x22] (* if tlsDebug!="" *);
+     [x69; x66; x20; x65; x72; x72; x21; x3d; x6e; x69; x6c] (* if err!=nil *);
+     [x69; x66; x20; x63; x6f; x6e; x66; x2e; x53; x65; x72; x76; x65; x72; x2e; x4b; x65; x79; x46; x69; x6c; x65; x21; x3d; x22; x22; x26; x26; x63; x6f; x6e; x66; x2e; x53; x65; x72; x76; x65; x72; x2e; x43; x65; x72; x74; x46; x69; x6c; x65; x21; x3d; x22; x22] (* if conf.Server.KeyFile!=""&&conf.Server.CertFile!="" *);
+     [x69; x66; x20; x65; x72; x72; x21; x3d; x6e; x69; x6c] (* if err!=nil *);
+     [x69; x66; x20; x21; x74; x6c; x73; x43; x6f; x6e; x66; x69; x67; x75; x72; x65; x64] (* if !tlsConfigured *);
+     [x67; x6f; x20; x3c; x2a; x61; x73; x74; x2e; x46; x75; x6e; x63; x4c; x69; x74; x3e] (* go <*ast.FuncLit> *);
+     [x69; x66; x20; x63; x6f; x6e; x66; x2e; x43; x61; x70; x73; x2e; x54; x6f; x6b; x65; x6e; x41; x75; x74; x68] (* if conf.Caps.TokenAuth *);
+     [x69; x66; x20; x63; x6f; x6e; x66; x2e; x53; x65; x72; x76; x65; x72; x2e; x4f; x70; x65; x6e; x49; x44; x45; x6e; x61; x62; x6c; x65; x64; x28; x29] (* if conf.Server.OpenIDEnabled() *);
+     [x69; x66; x20; x21; x63; x6f; x6e; x66; x2e; x53; x65; x72; x76; x65; x72; x2e; x4b; x65; x72; x62; x65; x72; x6f; x73; x45; x6e; x61; x62; x6c; x65; x64; x28; x29; x26; x26; x21; x63; x6f; x6e; x66; x2e; x53; x65; x72; x76; x65; x72; x2e; x42; x61; x73; x69; x63; x41; x75; x74; x68; x45; x6e; x61; x62; x6c; x65; x64; x28; x29; x26; x26; x21; x63; x6f; x6e; x66; x2e; x53; x65; x72; x76; x65; x72; x2e; x4e; x74; x6c; x6d; x45; x6e; x61; x62; x6c; x65; x64; x28; x29] (* if !conf.Server.KerberosEnabled()&&!conf.Server.BasicAuthEnabled()&&!conf.Server.NtlmEnabled() *);
+     [x69; x66; x20; x63; x6f; x6e; x66; x2e; x53; x65; x72; x76; x65; x72; x2e; x4e; x74; x6c; x6d; x45; x6e; x61; x62; x6c; x65; x64; x28; x29] (* if conf.Server.NtlmEnabled() *);
+     [x69; x66; x20; x63; x6f; x6e; x66; x2e; x53; x65; x72; x76; x65; x72; x2e; x42; x61; x73; x69; x63; x41; x75; x74; x68; x45; x6e; x61; x62; x6c; x65; x64; x28; x29] (* if conf.Server.BasicAuthEnabled() *);
+     [x69; x66; x20; x63; x6f; x6e; x66; x2e; x53; x65; x72; x76; x65; x72; x2e; x4b; x65; x72; x62; x65; x72; x6f; x73; x45; x6e; x61; x62; x6c; x65; x64; x28; x29] (* if conf.Server.KerberosEnabled() *);
+     [x69; x66; x20; x65; x72; x72; x21; x3d; x6e; x69; x6c] (* if err!=nil *);
+     [x69; x66; x20; x63; x6f; x6e; x66; x2e; x53; x65; x72; x76; x65; x72; x2e; x54; x6c; x73; x3d; x3d; x63; x6f; x6e; x66; x69; x67; x2e; x54; x6c; x73; x44; x69; x73; x61; x62; x6c; x65] (* if conf.Server.Tls==config.TlsDisable *);
+     [x69; x66; x20; x65; x72; x72; x21; x3d; x6e; x69; x6c] (* if err!=nil *)] /\
+  DECISIONS_configLoad =
+    [[x69; x66; x20; x5f; x2c; x65; x72; x72; x3a; x3d; x6f; x73; x2e; x53; x74; x61; x74; x28; x63; x6f; x6e; x66; x69; x67; x46; x69; x6c; x65; x29; x3b; x20; x6f; x73; x2e; x49; x73; x4e; x6f; x74; x45; x78; x69; x73; x74; x28; x65; x72; x72; x29] (* if _,err:=os.Stat(configFile); os.IsNotExist(err) *);
+     [x69; x66; x20; x65; x72; x72; x3a; x3d; x6b; x2e; x4c; x6f; x61; x64; x28; x66; x69; x6c; x65; x2e; x50; x72; x6f; x76; x69; x64; x65; x72; x28; x63; x6f; x6e; x66; x69; x67; x46; x69; x6c; x65; x29; x2c; x79; x61; x6d; x6c; x2e; x50; x61; x72; x73; x65; x72; x28; x29; x29; x3b; x20; x65; x72; x72; x21; x3d; x6e; x69; x6c] (* if err:=k.Load(file.Provider(configFile),yaml.Parser()); err!=nil *);
+     [x69; x66; x20; x65; x72; x72; x3a; x3d; x6b; x2e; x4c; x6f; x61; x64; x28; x65; x6e; x76; x2e; x50; x72; x6f; x76; x69; x64; x65; x72; x57; x69; x74; x68; x56; x61; x6c; x75; x65; x28; x22; x52; x44; x50; x47; x57; x5f; x22; x2c; x22; x2e; x22; x2c; x3c; x2a; x61; x73; x74; x2e; x46; x75; x6e; x63; x4c; x69; x74; x3e; x29; x2c; x6e; x69; x6c; x29; x3b; x20; x65; x72; x72; x21; x3d; x6e; x69; x6c] (* if err:=k.Load(env.ProviderWithValue("RDPGW_",".",<*ast.FuncLit>),nil); err!=nil *);
+     [x69; x66; x20; x73; x74; x72; x69; x6e; x67; x73; x2e; x43; x6f; x6e; x74; x61; x69; x6e; x73; x28; x76; x2c; x22; x20; x22; x29] (* if strings.Contains(v," ") *);
+     [x72; x65; x74; x75; x72; x6e; x20; x6b; x65; x79; x2c; x73; x74; x72; x69; x6e; x67; x73; x2e; x53; x70; x6c; x69; x74; x28; x76; x2c; x22; x20; x22; x29] (* return key,strings.Split(v," ") *);
+     [x72; x65; x74; x75; x72; x6e; x20; x6b; x65; x79; x2c; x76] (* return key,v *);
+     [x69; x66; x20; x6c; x65; x6e; x28; x43; x6f; x6e; x66; x2e; x53; x65; x63; x75; x72; x69; x74; x79; x2e; x50; x41; x41; x54; x6f; x6b; x65; x6e; x45; x6e; x63; x72; x79; x70; x74; x69; x6f; x6e; x4b; x65; x79; x29; x21; x3d; x33; x32] (* if len(Conf.Security.PAATokenEncryptionKey)!=32 *);
+     [x69; x66; x20; x6c; x65; x6e; x28; x43; x6f; x6e; x66; x2e; x53; x65; x63; x75; x72; x69; x74; x79; x2e; x50; x41; x41; x54; x6f; x6b; x65; x6e; x53; x69; x67; x6e; x69; x6e; x67; x4b; x65; x79; x29; x21; x3d; x33; x32] (* if len(Conf.Security.PAATokenSigningKey)!=32 *);
+     [x69; x66; x20; x43; x6f; x6e; x66; x2e; x53; x65; x63; x75; x72; x69; x74; x79; x2e; x45; x6e; x61; x62; x6c; x65; x55; x73; x65; x72; x54; x6f; x6b; x65; x6e] (* if Conf.Security.EnableUserToken *);
+     [x69; x66; x20; x6c; x65; x6e; x28; x43; x6f; x6e; x66; x2e; x53; x65; x63; x75; x72; x69; x74; x79; x2e; x55; x73; x65; x72; x54; x6f; x6b; x65; x6e; x45; x6e; x63; x72; x79; x70; x74; x69; x6f; x6e; x4b; x65; x79; x29; x21; x3d; x33; x32] (* if len(Conf.Security.UserTokenEncryptionKey)!=32 *);
+     [x69; x66; x20; x6c; x65; x6e; x28; x43; x6f; x6e; x66; x2e; x53; x65; x72; x76; x65; x72; x2e; x53; x65; x73; x73; x69; x6f; x6e; x4b; x65; x79; x29; x21; x3d; x33; x32] (* if len(Conf.Server.SessionKey)!=32 *);
+     [x69; x66; x20; x6c; x65; x6e; x28; x43; x6f; x6e; x66; x2e; x53; x65; x72; x76; x65; x72; x2e; x53; x65; x73; x73; x69; x6f; x6e; x45; x6e; x63; x72; x79; x70; x74; x69; x6f; x6e; x4b; x65; x79; x29; x21; x3d; x33; x32] (* if len(Conf.Server.SessionEncryptionKey)!=32 *);
+     [x69; x66; x20; x43; x6f; x6e; x66; x2e; x53; x65; x72; x76; x65; x72; x2e; x48; x6f; x73; x74; x53; x65; x6c; x65; x63; x74; x69; x6f; x6e; x3d; x3d; x22; x73; x69; x67; x6e; x65; x64; x22; x26; x26; x6c; x65; x6e; x28; x43; x6f; x6e; x66; x2e; x53; x65; x63; x75; x72; x69; x74; x79; x2e; x51; x75; x65; x72; x79; x54; x6f; x6b; x65; x6e; x53; x69; x67; x6e; x69; x6e; x67; x4b; x65; x79; x29; x3d; x3d; x30] (* if Conf.Server.HostSelection=="signed"&&len(Conf.Security.QueryTokenSigningKey)==0 *);
+     [x69; x66; x20; x43; x6f; x6e; x66; x2e; x53; x65; x72; x76; x65; x72; x2e; x42; x61; x73; x69; x63; x41; x75; x74; x68; x45; x6e; x61; x62; x6c; x65; x64; x28; x29; x26; x26; x43; x6f; x6e; x66; x2e; x53; x65; x72; x76; x65; x72; x2e; x54; x6c; x73; x3d; x3d; x22; x64; x69; x73; x61; x62; x6c; x65; x22] (* if Conf.Server.BasicAuthEnabled()&&Conf.Server.Tls=="disable" *);
+     [x69; x66; x20; x43; x6f; x6e; x66; x2e; x53; x65; x72; x76; x65; x72; x2e; x4e; x74; x6c; x6d; x45; x6e; x61; x62; x6c; x65; x64; x28; x29; x26; x26; x43; x6f; x6e; x66; x2e; x53; x65; x72; x76; x65; x72; x2e; x4b; x65; x72; x62; x65; x72; x6f; x73; x45; x6e; x61; x62; x6c; x65; x64; x28; x29] (* if Conf.Server.NtlmEnabled()&&Conf.Server.KerberosEnabled() *);
+     [x69; x66; x20; x21; x43; x6f; x6e; x66; x2e; x43; x61; x70; x73; x2e; x54; x6f; x6b; x65; x6e; x41; x75; x74; x68; x26; x26; x43; x6f; x6e; x66; x2e; x53; x65; x72; x76; x65; x72; x2e; x4f; x70; x65; x6e; x49; x44; x45; x6e; x61; x62; x6c; x65; x64; x28; x29] (* if !Conf.Caps.TokenAuth&&Conf.Server.OpenIDEnabled() *);
+     [x69; x66; x20; x43; x6f; x6e; x66; x2e; x53; x65; x72; x76; x65; x72; x2e; x4b; x65; x72; x62; x65; x72; x6f; x73; x45; x6e; x61; x62; x6c; x65; x64; x28; x29; x26; x26; x43; x6f; x6e; x66; x2e; x4b; x65; x72; x62; x65; x72; x6f; x73; x2e; x4b; x65; x79; x74; x61; x62; x3d; x3d; x22; x22] (* if Conf.Server.KerberosEnabled()&&Conf.Kerberos.Keytab=="" *);
+     [x69; x66; x20; x21; x73; x74; x72; x69; x6e; x67; x73; x2e; x43; x6f; x6e; x74; x61; x69; x6e; x73; x28; x43; x6f; x6e; x66; x2e; x53; x65; x72; x76; x65; x72; x2e; x47; x61; x74; x65; x77; x61; x79; x41; x64; x64; x72; x65; x73; x73; x2c; x22; x2f; x2f; x22; x29] (* if !strings.Contains(Conf.Server.GatewayAddress,"//") *);
+     [x72; x65; x74; x75; x72; x6e; x20; x43; x6f; x6e; x66] (* return Conf *)].
+Proof. vm_compute. repeat split; reflexivity. Qed.
+Print Assumptions C18_decisions_as_transcribed.
